@@ -247,6 +247,11 @@ func (env *Env) modifiesComps(ct *Contract, sf *SpecFile, callee *ssa.Function) 
 	for i, n := range names {
 		cx.vars[n] = sval{t: fmt.Sprintf("|dummy:%s|", n), typ: ptypes[i], kind: "val"}
 	}
+	if callee != nil {
+		for _, fv := range callee.FreeVars {
+			cx.vars["&"+fv.Name()] = sval{t: fmt.Sprintf("|dummyfv:%s|", fv.Name()), typ: fv.Type(), kind: "val"}
+		}
+	}
 	seen := map[string]bool{}
 	for _, m := range ct.Modifies {
 		for _, l := range cx.locations(m.E) {
